@@ -640,6 +640,12 @@ func (s *Stream) AsyncWriteFrame(f *Frame, callback func(err error)) {
 }
 
 func (s *Stream) prepareWrite(f *Frame) {
+	// Only the header and the declared payload go on the wire. A frame that was
+	// built without SetPayload, or that comes back from the pool after a longer
+	// message, is longer than the frame it declares.
+	if n := f.payloadOffset() + f.PayloadLength(); n >= 0 && n < len(*f) {
+		*f = (*f)[:n]
+	}
 	if s.role == RoleClient {
 		f.MaskPayload()
 	}
